@@ -74,6 +74,7 @@ type Path struct {
 	extra   map[string]uint64 // harness-level choices (verifrt.Choose), part of every model
 	dom       map[string]domain
 	entangled map[string]bool
+	allEntangled bool
 	svCache   map[int64]*svInfo
 	decided map[int64]bool // outcome of branch terms already decided on this path
 	hasDecided map[int64]bool
@@ -138,6 +139,7 @@ func (d *domain) subsetOf(o *domain) bool {
 }
 
 type svInfo struct {
+	cut  bool      // term too large to analyse: its variables are unknown
 	v    *smt.Term // the single small variable the term depends on (nil if none)
 	vars []*smt.Term
 	mask domain // values of v satisfying the term
@@ -183,7 +185,9 @@ func (p *Path) analyse(c *smt.Term) *svInfo {
 	}
 	walk(c)
 	if len(seen) > 5000 {
+		// the walk was cut short: the variable list is incomplete
 		pure = false
+		inf.cut = true
 	}
 	if pure && len(inf.vars) == 1 {
 		v := inf.vars[0]
@@ -221,6 +225,10 @@ func (p *Path) noteAsserted(c *smt.Term) {
 		p.dom[inf.v.Name] = d
 		return
 	}
+	if inf.cut {
+		// conservative: from now on every variable may be constrained together with others
+		p.allEntangled = true
+	}
 	for _, v := range inf.vars {
 		p.entangled[v.Name] = true
 	}
@@ -245,13 +253,14 @@ func (p *Path) quickDecide(c *smt.Term) (bool, bool, bool) {
 	if d.subsetOf(&inf.mask) {
 		return true, false, true // every remaining value satisfies c
 	}
-	if !p.entangled[inf.v.Name] {
+	if !p.entangled[inf.v.Name] && !p.allEntangled {
 		return true, true, true // all constraints on v are single-variable ones: exact
 	}
 	return false, false, false
 }
 
 func (p *Path) assertPC(c *smt.Term) {
+	p.installPendingModel()
 	p.w.solver.Assert(c)
 	p.noteAsserted(c)
 	if p.cmodel != nil {
@@ -314,6 +323,16 @@ func (p *Path) checkSide(lit *smt.Term) (smt.Result, smt.Model) {
 	return r, m
 }
 
+// installPendingModel: the model that came with this path's prefix is valid
+// exactly at the end of the prefix, before anything else is asserted; it must be
+// installed there (later assertions then validate it) or dropped.
+func (p *Path) installPendingModel() {
+	if p.pendingModel != nil && p.pos >= len(p.prefix) {
+		p.cmodel = smt.Model(p.pendingModel)
+		p.pendingModel = nil
+	}
+}
+
 // branch decides a symbolic condition.
 func (p *Path) branch(c *smt.Term) bool {
 	if b, ok := c.ConstBool(); ok {
@@ -342,10 +361,7 @@ func (p *Path) branch(c *smt.Term) bool {
 			}
 		}
 	} else {
-		if p.pos == len(p.prefix) && p.pendingModel != nil {
-			p.cmodel = smt.Model(p.pendingModel)
-			p.pendingModel = nil
-		}
+		p.installPendingModel()
 		var rT, rF smt.Result
 		var mT, mF smt.Model
 		if tq, fq, ok := p.quickDecide(c); ok && p.w.ex.Cfg.Domains {
@@ -489,6 +505,7 @@ func (p *Path) concretize(t *smt.Term, limit int, what string) uint64 {
 		p.assertPC(smt.Eq(t, &smt.Term{Op: smt.OConst, Sort: t.Sort, U: d.V}))
 		return d.V
 	}
+	p.installPendingModel()
 	var vals []uint64
 	s.Push()
 	for len(vals) <= limit {
